@@ -11,16 +11,30 @@ from __future__ import annotations
 ID = "C09"
 LEVEL = "exploration"
 RULE = ("full matrix of ml.load / loads / load_all / loads_all / dump / dumps over formats {xyz, mol2, cdxml, pdb, qqq}, source / "
-        "target kinds {Path, str path, open stream, text}, otype {'molecule','ensemble',Molecule,Structure,ConformerEnsemble}, "
-        "name {None,'Z'}, modes {default append, 'w'} on bundled files (dendrobine, pentane_confs, dummy, parser_demo.cdxml) "
-        "and seeded generated multi-molecule texts. non-trivial = not an error cell and the input has >=2 molecules / "
-        "conformers; distinct by cell signature + input")
+        "target kinds {Path, str path, open stream, text}, otype {not given,'molecule','ensemble',Molecule,Structure,ConformerEnsemble,"
+        "a user subclass}, name {None,'Z'}, modes {default append, 'w'} on bundled files (dendrobine, pentane_confs, dummy, "
+        "parser_demo.cdxml, charges_mult.cdxml) and seeded generated multi-molecule texts; file names with one dot, several dots "
+        "(in a dotted directory, absolute and './relative'), an unrelated / no / another format's suffix; fmt given by keyword and "
+        "by position; parser / writer name in mixed case; every call repeated after the caller edited (and shortened) the first "
+        "result; every format name of the openbabel tables without a class-level codec as an error cell. non-trivial = not an "
+        "error cell and the input has >=2 molecules / conformers; distinct by cell signature + input")
 ASSUMPTIONS = [
-    "an unsupported format must raise ValueError; loads(...,'cdxml') may raise NotImplementedError (documented: file source only)",
+    "an unsupported format must raise ValueError; loads / loads_all(...,'cdxml') may raise NotImplementedError (documented: file source only)",
+    "a format is supported for reading iff Molecule has load_<fmt> (or it is cdxml), for writing iff Molecule has dumps_<fmt>",
+    "cdxml: load without a key gives the first fragment of the document, load_all all fragments in document order "
+    "(CDXMLFile.xfrags / _parse_fragment are used as the class-level codec when they exist; independent of them: load() equals "
+    "load_all()[0] and every CDXMLFile[label] is among load_all())",
+    "parser / writer names are matched case-insensitively (reader.py / writer.py: match parser.lower()); with parser='openbabel' "
+    "only the refusal of a format openbabel does not list is judged (openbabel is not installed here)",
     "'ensemble' with load_all/loads_all is refused by design (ValueError)",
     "dump to a path with an unsupported format: only the ValueError is judged, not whether an empty file was created",
 ]
-REQUIRED = {"cell.load": 100, "cell.load-again-after-edit": 30, "cell.load-after-file-replaced": 9, "cell.loads": 60, "cell.load_all": 60, "cell.loads_all": 40, "cell.dump": 100, "cell.dumps": 20,
+REQUIRED = {"source.multi-dot-name": 500, "call.positional-fmt": 200, "call.keyword-fmt": 250, "call.parser-name-mixed-case": 500,
+            "call.default-otype": 20, "target.multi-dot-name": 150, "cell.loads-again-after-edit": 100, "cell.load_all-again-after-edit": 150,
+            "cell.loads_all-again-after-edit": 80, "cdxml.load_all-elements-compared": 500, "cdxml.no-key-vs-first-of-load_all": 8,
+            "cdxml.labelled-fragment-found-in-load_all": 100, "error.format-without-class-codec": 300,
+            "error.openbabel-parser-unlisted-format": 60,
+            "cell.load": 100, "cell.load-again-after-edit": 30, "cell.load-after-file-replaced": 9, "cell.loads": 60, "cell.load_all": 60, "cell.loads_all": 40, "cell.dump": 100, "cell.dumps": 20,
             "cell.error": 40, "dump.writer-option-forwarded": 10, "order.cdxml-after-other-entry-points": 1,
             "order.errors-after-other-entry-points": 1, "name-override.checked": 60, "dump.stream-left-open": 20, "dump.append-vs-truncate": 10}
 CHUNK_TIMEOUT = 600
@@ -34,6 +48,8 @@ def plan(tier, seed):
     specs = [{"kind": "bundled", "file": f} for f in ("dendrobine", "pentane_confs", "dummy")]
     specs.append({"kind": "cdxml"})
     specs.append({"kind": "errors"})
+    specs += [{"kind": "cdxml-load_all", "file": f} for f in ("parser_demo.cdxml", "charges_mult.cdxml")]
+    specs.append({"kind": "format-table"})
     n = 8 if tier == "quick" else 64
     for i in range(n):
         specs.append({"kind": "generated", "chunk": i, "n": 2 if tier == "quick" else 6})
@@ -66,8 +82,13 @@ def run_chunk(spec, ctx):
                 if base.n_atoms == 0:
                     continue
                 matrix(ctx, ("generated", spec["chunk"], j, fmt), text, fmt)
+    elif spec["kind"] == "cdxml-load_all":
+        run_cdxml_load_all(ctx, spec["file"])
+    elif spec["kind"] == "format-table":
+        run_format_table(ctx)
     elif spec["kind"] == "cdxml":
         run_cdxml(ctx)
+        run_cdxml_load_all(ctx, "charges_mult.cdxml", light=True)
         run_replaced_files(ctx)
         # the entry points are independent of each other: what one of them was asked before (also a refused request)
         # does not change what another one answers -- the cdxml cells once more after every other entry point ran
@@ -119,6 +140,30 @@ def names_of(x):
     return [y.name for y in x] if isinstance(x, (list, tuple)) else [x.name]
 
 
+DEFAULT = "<otype not given>"
+# source kinds / call forms added by the gap review: they appear in the violation key (the older ones do not)
+NAMED_FORMS = {"multi-dot-name", "multi-dot-name-str", "relative-str", "positional-fmt", "keyword-fmt", "parser-name-mixed-case"}
+FORM_COUNTER = {"multi-dot-name": "source.multi-dot-name", "multi-dot-name-str": "source.multi-dot-name", "relative-str": "source.multi-dot-name",
+                "positional-fmt": "call.positional-fmt", "keyword-fmt": "call.keyword-fmt",
+                "parser-name-mixed-case": "call.parser-name-mixed-case"}
+
+
+def form_key(key, form):
+    return f"{key}:{form}" if form in NAMED_FORMS else key
+
+
+def dotted_dir(ctx):
+    """a directory whose own name has a dot, so that only the last suffix of the file NAME can say the format"""
+    d = ctx.tmp / "run.1"
+    d.mkdir(exist_ok=True)
+    return d
+
+
+def relative(path):
+    import os
+    return "./" + os.path.relpath(path)
+
+
 def matrix(ctx, inp, text, fmt):
     import io
     import molli as ml
@@ -127,44 +172,67 @@ def matrix(ctx, inp, text, fmt):
     p.write_text(text)
     # the same content under names whose suffix says nothing, or something else: an explicit fmt decides
     podd, pnone, pwrong = ctx.tmp / "in-odd.dat", ctx.tmp / "in-nosuffix", ctx.tmp / f"in-wrong.{'xyz' if fmt == 'mol2' else 'mol2'}"
-    for q in (podd, pnone, pwrong):
+    # ... and under a name with several dots (lig.conf1.opt-2.xyz is an xyz file), absolute and relative
+    pmd = dotted_dir(ctx) / f"lig.conf1.opt-2.{fmt}"
+    for q in (podd, pnone, pwrong, pmd):
         q.write_text(text)
+    prel = relative(pmd)
     n_mols = text.count("@<TRIPOS>MOLECULE") if fmt == "mol2" else len(ml.Molecule.loads_all_xyz(text))
     UserMolecule = type("UserMolecule", (ml.Molecule,), {})      # a user-defined output type is an output type like any other
-    otypes = [("molecule", ml.Molecule), ("ensemble", ml.ConformerEnsemble), (ml.Molecule, ml.Molecule),
+    otypes = [(DEFAULT, ml.Molecule), ("molecule", ml.Molecule), ("ensemble", ml.ConformerEnsemble), (ml.Molecule, ml.Molecule),
               (ml.Structure, ml.Structure), (ml.ConformerEnsemble, ml.ConformerEnsemble), (UserMolecule, UserMolecule)]
     for oarg, T in otypes:
-        oname = oarg if isinstance(oarg, str) else oarg.__name__
+        oname = "default-otype" if oarg is DEFAULT else oarg if isinstance(oarg, str) else oarg.__name__
         for name in (None, "Z"):
             sig = (oname, name)
-            # ---------------- load (Path, str path, explicit fmt)
-            other = "xyz" if fmt == "mol2" else "mol2"
-            for src_kind, src, kw in (("Path", p, {}), ("str", str(p), {}), ("Path+fmt", p, {"fmt": fmt}),
-                                      ("odd-suffix+fmt", podd, {"fmt": fmt}), ("no-suffix+fmt", pnone, {"fmt": fmt}),
-                                      ("wrong-suffix+fmt", pwrong, {"fmt": fmt})):
+            # otype / name are left out of the call altogether in the default cells
+            okw = {} if oarg is DEFAULT else {"otype": oarg}
+            if name is not None or oarg is not DEFAULT:
+                okw["name"] = name
+            if oarg is DEFAULT:
+                ctx.count("call.default-otype")
+            # ---------------- load (Path, str path, explicit fmt by keyword and by position, names with several dots)
+            want, werr = attempt(lambda: getattr(T, f"load_{fmt}")(p, name=name))
+            for src_kind, src, args, kw in (("Path", p, (), {}), ("str", str(p), (), {}), ("Path+fmt", p, (), {"fmt": fmt}),
+                                            ("odd-suffix+fmt", podd, (), {"fmt": fmt}), ("no-suffix+fmt", pnone, (), {"fmt": fmt}),
+                                            ("wrong-suffix+fmt", pwrong, (), {"fmt": fmt}),
+                                            ("multi-dot-name", pmd, (), {}), ("multi-dot-name-str", str(pmd), (), {}),
+                                            ("relative-str", prel, (), {}), ("positional-fmt", podd, (fmt,), {}),
+                                            ("parser-name-mixed-case", p, (), {"parser": "Molli"})):
                 case = inp + ("load", src_kind) + sig
                 if not ctx.want(case):
                     continue
                 ctx.count("cell.load")
+                if src_kind in FORM_COUNTER:
+                    ctx.count(FORM_COUNTER[src_kind])
                 ctx.case(case, dkey=case, nontrivial=n_mols >= 2, sample={"call": "load", "fmt": fmt, "source": src_kind,
                                                                            "otype": oname, "name": name})
-                want, werr = attempt(lambda: getattr(T, f"load_{fmt}")(p, name=name))
-                got, gerr = attempt(lambda: ml.load(src, otype=oarg, name=name, **kw))
-                judge(ctx, case, f"load:{fmt}:{oname}", got, gerr, want, werr, name)
-                if gerr is None and werr is None and src_kind == "Path":
+                got, gerr = attempt(lambda: ml.load(src, *args, **okw, **kw))
+                judge(ctx, case, form_key(f"load:{fmt}:{oname}", src_kind), got, gerr, want, werr, name)
+                if gerr is None and werr is None and src_kind in ("Path", "str"):
                     # loading again after the caller has edited the first result gives the file's content again
                     edit_result(got)
-                    again, aerr = attempt(lambda: ml.load(src, otype=oarg, name=name, **kw))
+                    again, aerr = attempt(lambda: ml.load(src, *args, **okw, **kw))
                     ctx.count("cell.load-again-after-edit")
                     judge(ctx, case, f"load-again-after-editing-first-result:{fmt}:{oname}", again, aerr, want, werr, name)
-            # ---------------- loads
-            case = inp + ("loads", "text") + sig
-            if ctx.want(case):
+            # ---------------- loads (fmt by position and by keyword)
+            want, werr = attempt(lambda: getattr(T, f"loads_{fmt}")(text, name=name))
+            for form, args, kw in (("text", (fmt,), {}), ("keyword-fmt", (), {"fmt": fmt}),
+                                   ("parser-name-mixed-case", (fmt,), {"parser": "MOLLI"})):
+                case = inp + ("loads", form) + sig
+                if not ctx.want(case):
+                    continue
                 ctx.count("cell.loads")
+                if form in FORM_COUNTER:
+                    ctx.count(FORM_COUNTER[form])
                 ctx.case(case, dkey=case, nontrivial=n_mols >= 2, sample={"call": "loads", "fmt": fmt, "otype": oname, "name": name})
-                want, werr = attempt(lambda: getattr(T, f"loads_{fmt}")(text, name=name))
-                got, gerr = attempt(lambda: ml.loads(text, fmt, otype=oarg, name=name))
-                judge(ctx, case, f"loads:{fmt}:{oname}", got, gerr, want, werr, name)
+                got, gerr = attempt(lambda: ml.loads(text, *args, **okw, **kw))
+                judge(ctx, case, form_key(f"loads:{fmt}:{oname}", form), got, gerr, want, werr, name)
+                if gerr is None and werr is None and form == "text":
+                    edit_result(got)
+                    again, aerr = attempt(lambda: ml.loads(text, *args, **okw, **kw))
+                    ctx.count("cell.loads-again-after-edit")
+                    judge(ctx, case, f"loads-again-after-editing-first-result:{fmt}:{oname}", again, aerr, want, werr, name)
             # ---------------- load_all / loads_all
             if T is ml.ConformerEnsemble:
                 for fnname, call in (("load_all", lambda: ml.load_all(p, otype=oarg, name=name)),
@@ -182,23 +250,46 @@ def matrix(ctx, inp, text, fmt):
                         ctx.violation(f"{fnname}:{fmt}:{oname}:raises-{type(gerr).__name__}-instead-of-ValueError", case=case,
                                       err=repr(gerr)[:200])
             else:
-                for src_kind, src, kw in (("Path", p, {}), ("str", str(p), {}), ("odd-suffix+fmt", podd, {"fmt": fmt}),
-                                          ("wrong-suffix+fmt", pwrong, {"fmt": fmt})):
+                want, werr = attempt(lambda: getattr(T, f"load_all_{fmt}")(p, name=name))
+                for src_kind, src, args, kw in (("Path", p, (), {}), ("str", str(p), (), {}), ("odd-suffix+fmt", podd, (), {"fmt": fmt}),
+                                                ("wrong-suffix+fmt", pwrong, (), {"fmt": fmt}),
+                                                ("multi-dot-name", pmd, (), {}), ("relative-str", prel, (), {}),
+                                                ("positional-fmt", podd, (fmt,), {}),
+                                                ("parser-name-mixed-case", p, (), {"parser": "MoLLi"})):
                     case = inp + ("load_all", src_kind) + sig
                     if not ctx.want(case):
                         continue
                     ctx.count("cell.load_all")
+                    if src_kind in FORM_COUNTER:
+                        ctx.count(FORM_COUNTER[src_kind])
                     ctx.case(case, dkey=case, nontrivial=n_mols >= 2, sample={"call": "load_all", "fmt": fmt, "otype": oname, "name": name})
-                    want, werr = attempt(lambda: getattr(T, f"load_all_{fmt}")(p, name=name))
-                    got, gerr = attempt(lambda: ml.load_all(src, otype=oarg, name=name, **kw))
-                    judge(ctx, case, f"load_all:{fmt}:{oname}", got, gerr, want, werr, name, want_list=True)
-                case = inp + ("loads_all", "text") + sig
-                if ctx.want(case):
+                    got, gerr = attempt(lambda: ml.load_all(src, *args, **okw, **kw))
+                    judge(ctx, case, form_key(f"load_all:{fmt}:{oname}", src_kind), got, gerr, want, werr, name, want_list=True)
+                    if gerr is None and werr is None and src_kind in ("Path", "str"):
+                        # ... the caller may also have shortened the list it was given
+                        edit_result(got)
+                        again, aerr = attempt(lambda: ml.load_all(src, *args, **okw, **kw))
+                        ctx.count("cell.load_all-again-after-edit")
+                        judge(ctx, case, f"load_all-again-after-editing-first-result:{fmt}:{oname}", again, aerr, want, werr, name,
+                              want_list=True)
+                want, werr = attempt(lambda: getattr(T, f"loads_all_{fmt}")(text, name=name))
+                for form, args, kw in (("text", (fmt,), {}), ("keyword-fmt", (), {"fmt": fmt}),
+                                       ("parser-name-mixed-case", (fmt,), {"parser": "Molli"})):
+                    case = inp + ("loads_all", form) + sig
+                    if not ctx.want(case):
+                        continue
                     ctx.count("cell.loads_all")
+                    if form in FORM_COUNTER:
+                        ctx.count(FORM_COUNTER[form])
                     ctx.case(case, dkey=case, nontrivial=n_mols >= 2, sample={"call": "loads_all", "fmt": fmt, "otype": oname, "name": name})
-                    want, werr = attempt(lambda: getattr(T, f"loads_all_{fmt}")(text, name=name))
-                    got, gerr = attempt(lambda: ml.loads_all(text, fmt, otype=oarg, name=name))
-                    judge(ctx, case, f"loads_all:{fmt}:{oname}", got, gerr, want, werr, name, want_list=True)
+                    got, gerr = attempt(lambda: ml.loads_all(text, *args, **okw, **kw))
+                    judge(ctx, case, form_key(f"loads_all:{fmt}:{oname}", form), got, gerr, want, werr, name, want_list=True)
+                    if gerr is None and werr is None and form == "text":
+                        edit_result(got)
+                        again, aerr = attempt(lambda: ml.loads_all(text, *args, **okw, **kw))
+                        ctx.count("cell.loads_all-again-after-edit")
+                        judge(ctx, case, f"loads_all-again-after-editing-first-result:{fmt}:{oname}", again, aerr, want, werr, name,
+                              want_list=True)
     # ---------------- dump / dumps
     objs = [("Molecule", ml.Molecule.loads_all_mol2(text)[0] if fmt == "mol2" else ml.Molecule.loads_all_xyz(text)[0]),
             ("Structure", ml.Structure.loads_all_mol2(text)[0] if fmt == "mol2" else ml.Structure.loads_all_xyz(text)[0]),
@@ -331,9 +422,55 @@ def matrix(ctx, inp, text, fmt):
                 _, e4 = attempt(lambda: ml.dump(obj, odd, ofmt))
                 if e4 is not None or odd.read_text() != expected:
                     ctx.violation(f"dump:path:{ofmt}:explicit-fmt-with-other-suffix-fails", case=case, err=repr(e4)[:200])
+            # path targets whose name has several dots (out.v2.xyz is an xyz file): Path, str, './relative', format from the suffix
+            case = inp + ("dump", "multi-dot-target", oname, ofmt)
+            if ctx.want(case):
+                ctx.count("cell.dump")
+                ctx.case(case, dkey=case, nontrivial=n_mols >= 2, sample={"call": "dump", "target": "name with several dots", "fmt": ofmt,
+                                                                           "obj": oname})
+                for tkind, fname in (("Path", f"out.v2.{ofmt}"), ("str", f"{oname}.run-1.opt.{ofmt}"), ("relative-str", f"rel.a.b.{ofmt}")):
+                    out = dotted_dir(ctx) / fname
+                    if out.exists():
+                        out.unlink()
+                    tgt = out if tkind == "Path" else str(out) if tkind == "str" else relative(out)
+                    ctx.count("target.multi-dot-name")
+                    r, e = attempt(lambda: ml.dump(obj, tgt))
+                    if e is not None:
+                        ctx.violation(f"dump:path:{ofmt}:multi-dot-name:raises:{type(e).__name__}", case=case, target=tkind, err=repr(e)[:200])
+                    elif out.read_text() != expected:
+                        ctx.violation(f"dump:path:{ofmt}:multi-dot-name:text-differs-from-class-method", case=case, target=tkind)
+            # the other call forms: fmt by keyword, writer name in mixed case (matched case-insensitively)
+            case = inp + ("dump", "call-forms", oname, ofmt)
+            if ctx.want(case):
+                ctx.count("cell.dump")
+                ctx.count("cell.dumps")
+                ctx.case(case, dkey=case, nontrivial=n_mols >= 2, sample={"call": "dump / dumps, fmt= keyword, writer='Molli'", "fmt": ofmt,
+                                                                           "obj": oname})
+                for form, args, kw in (("keyword-fmt", (), {"fmt": ofmt}), ("writer-name-mixed-case", (ofmt,), {"writer": "Molli"}),
+                                       ("writer-name-mixed-case", (), {"fmt": ofmt, "writer": "MOLLI"})):
+                    ctx.count(FORM_COUNTER.get(form, "call.parser-name-mixed-case"))
+                    got, e = attempt(lambda: ml.dumps(obj, *args, **kw))
+                    if e is not None:
+                        ctx.violation(f"dumps:{ofmt}:{oname}:{form}:raises:{type(e).__name__}", case=case, err=repr(e)[:200])
+                    elif got != expected:
+                        ctx.violation(f"dumps:{ofmt}:{oname}:{form}:text-differs-from-class-method", case=case,
+                                      returned=type(got).__name__)
+                    buf = io.StringIO()
+                    _, e = attempt(lambda: ml.dump(obj, buf, *args, **kw))
+                    if e is not None:
+                        ctx.violation(f"dump:stream:{ofmt}:{form}:raises:{type(e).__name__}", case=case, err=repr(e)[:200])
+                    elif buf.closed or buf.getvalue() != expected:
+                        ctx.violation(f"dump:stream:{ofmt}:{form}:text-differs-from-class-method", case=case)
+                    out = ctx.tmp / f"form-{oname}.txt"
+                    _, e = attempt(lambda: ml.dump(obj, out, *args, mode="w", **kw))
+                    if e is not None:
+                        ctx.violation(f"dump:path:{ofmt}:{form}:raises:{type(e).__name__}", case=case, err=repr(e)[:200])
+                    elif out.read_text() != expected:
+                        ctx.violation(f"dump:path:{ofmt}:{form}:text-differs-from-class-method", case=case)
 
 
 def edit_result(x):
+    """what a caller may do with a result that is his: rename, relabel, move atoms; drop an element of a list"""
     try:
         for y in (x if isinstance(x, (list, tuple)) else [x]):
             y.name = "edited-by-caller"
@@ -342,6 +479,8 @@ def edit_result(x):
                 y.coords[...] = 4321.0
     except Exception:  # noqa
         pass
+    if isinstance(x, list) and x:
+        x.pop()
 
 
 def judge(ctx, case, key, got, gerr, want, werr, name, want_list=False):
@@ -410,16 +549,31 @@ def run_replaced_files(ctx):
                     same(ctx, case, f"load-after-file-replaced:{fmt}", got1, want[0])
 
 
+def fragment_oracle(cf):
+    """(fragments in document order, parse function) of a CDXMLFile, or (None, None) when the class has no such members"""
+    xf, pf = getattr(cf, "xfrags", None), getattr(cf, "_parse_fragment", None)
+    if isinstance(xf, list) and xf and callable(pf):
+        return xf, pf
+    return None, None
+
+
 def run_cdxml(ctx, again=None):
+    import shutil
     import molli as ml
     from vmon.snap import snap, diff
 
     p = ml.files.ROOT / "parser_demo.cdxml"
     cf = ml.CDXMLFile(p)
     keys = sorted(cf.keys())
-    for oarg, T in (("molecule", ml.Molecule), (ml.Molecule, ml.Molecule), (ml.Structure, ml.Structure),
+    xf, pf = fragment_oracle(cf)
+    # the same drawing under a name with several dots and under a name whose suffix says nothing
+    pmd, podd = dotted_dir(ctx) / "scheme.v2.final.cdxml", ctx.tmp / "scheme.dat"
+    for q in (pmd, podd):
+        shutil.copyfile(p, q)
+    for oarg, T in ((DEFAULT, ml.Molecule), ("molecule", ml.Molecule), (ml.Molecule, ml.Molecule), (ml.Structure, ml.Structure),
                     ("ensemble", ml.ConformerEnsemble)):
-        oname = oarg if isinstance(oarg, str) else oarg.__name__
+        oname = "default-otype" if oarg is DEFAULT else oarg if isinstance(oarg, str) else oarg.__name__
+        okw = {} if oarg is DEFAULT else {"otype": oarg}
         for name in (None, "Z"):
             for key in [None, 0, 1, len(keys) - 1] + keys[:6]:     # a key is a label or a position (CDXMLFile accepts both)
                 case = ("cdxml", oname, name, key) + ((again,) if again else ())
@@ -427,7 +581,7 @@ def run_cdxml(ctx, again=None):
                     continue
                 ctx.count("cell.load")
                 ctx.case(case, dkey=case, nontrivial=True, sample={"call": "load", "fmt": "cdxml", "otype": oname, "key": key, "name": name})
-                got, gerr = attempt(lambda: ml.load(p, otype=oarg, key=key, name=name))
+                got, gerr = attempt(lambda: ml.load(p, key=key, name=name, **okw))
                 if gerr is not None:
                     ctx.violation(f"load:cdxml:{oname}:raises:{type(gerr).__name__}", case=case, err=repr(gerr)[:200])
                     continue
@@ -443,10 +597,53 @@ def run_cdxml(ctx, again=None):
                         ctx.violation(f"load:cdxml:{oname}:differs-from-CDXMLFile-getitem:{d[0][0].split('[')[0].strip('.')}", case=case, diff=d[:3])
                     if name is None and got.name != want.name:
                         ctx.violation(f"load:cdxml:{oname}:name-differs-from-CDXMLFile-getitem", case=case, got=got.name, want=want.name)
+                else:
+                    want = None
+                    # no key: the first fragment of the document, i.e. what load_all puts first ...
+                    if T is not ml.ConformerEnsemble:
+                        ctx.count("cdxml.no-key-vs-first-of-load_all")
+                        allf, aerr = attempt(lambda: ml.load_all(p, name=name, **okw))
+                        if aerr is None and isinstance(allf, list) and allf:
+                            same(ctx, case, f"load:cdxml:{oname}:no-key:differs-from-first-of-load_all", got, allf[0])
+                    # ... and what the class-level parser makes of the first fragment element
+                    if pf is not None:
+                        ctx.count("cdxml.no-key-vs-first-fragment")
+                        cf2 = ml.CDXMLFile(p)
+                        xf2, pf2 = fragment_oracle(cf2)
+                        want = T(pf2(xf2[0], name=name))
+                        same(ctx, case, f"load:cdxml:{oname}:no-key:differs-from-first-fragment", got, want)
                 if name is not None:
                     ctx.count("name-override.checked")
                     if got.name != name:
                         ctx.violation(f"load:cdxml:{oname}:name-override-ignored", case=case, got=got.name, key_given=key is not None)
+                if again is None and want is not None and key in (None, 1, keys[0]):
+                    # the other call forms give the same object; so does a second call after the caller edited the first result
+                    want_snap = snap(want)
+                    if key is not None and name is None:
+                        want_snap["name"] = got.name
+                    elif name is not None:
+                        want_snap["name"] = name
+                    edit_result(got)
+                    forms = [("again-after-editing-first-result", lambda: ml.load(p, key=key, name=name, **okw)),
+                             ("str", lambda: ml.load(str(p), key=key, name=name, **okw)),
+                             ("multi-dot-name", lambda: ml.load(pmd, key=key, name=name, **okw)),
+                             ("relative-str", lambda: ml.load(relative(pmd), key=key, name=name, **okw)),
+                             ("positional-fmt", lambda: ml.load(podd, "cdxml", key, name=name, **okw)),
+                             ("keyword-fmt", lambda: ml.load(podd, fmt="cdxml", key=key, name=name, **okw)),
+                             ("parser-name-mixed-case", lambda: ml.load(p, key=key, name=name, parser="Molli", **okw))]
+                    for form, call in forms:
+                        ctx.count("cell.load")
+                        ctx.count(FORM_COUNTER.get(form, "cell.load-again-after-edit"))
+                        g2, e2 = attempt(call)
+                        if e2 is not None:
+                            ctx.violation(f"load:cdxml:{oname}:{form}:raises:{type(e2).__name__}", case=case, err=repr(e2)[:200])
+                        elif type(g2) is not T:
+                            ctx.violation(f"load:cdxml:{oname}:{form}:type-differs", case=case, got=type(g2).__name__)
+                        else:
+                            d = diff(snap(g2), want_snap, rtol=1e-9, atol=1e-9)
+                            if d:
+                                ctx.violation(f"load:cdxml:{oname}:{form}:differs-from-class-level-result:{d[0][0].split('[')[0].strip('.')}",
+                                              case=case, diff=d[:3])
     # load_all
     for name in (None, "Z"):
         case = ("cdxml", "load_all", name) + ((again,) if again else ())
@@ -460,6 +657,86 @@ def run_cdxml(ctx, again=None):
                           want=len(keys))
         elif name is not None and any(m.name != name for m in got):
             ctx.violation("load_all:cdxml:name-override-ignored", case=case)
+
+
+def run_cdxml_load_all(ctx, fname, light=False):
+    """load_all on a drawing: a list of otype objects, one per fragment, in document order, each equal to what the class-level
+    parser makes of that fragment; every labelled molecule CDXMLFile[label] is among them; fresh objects on every call"""
+    import shutil
+    import molli as ml
+    from vmon.snap import snap, diff
+
+    p = ml.files.ROOT / fname
+    pmd, podd = dotted_dir(ctx) / f"all.{fname}", ctx.tmp / "all-drawing.dat"
+    for q in (pmd, podd):
+        shutil.copyfile(p, q)
+    UserMolecule = type("UserMolecule", (ml.Molecule,), {})
+    tag = (fname,) + (("light",) if light else ())
+    otypes = [(DEFAULT, ml.Molecule), (ml.Structure, ml.Structure)] if light else \
+        [(DEFAULT, ml.Molecule), ("molecule", ml.Molecule), (ml.Molecule, ml.Molecule), (ml.Structure, ml.Structure), (UserMolecule, UserMolecule)]
+    for oarg, T in otypes:
+        oname = "default-otype" if oarg is DEFAULT else oarg if isinstance(oarg, str) else oarg.__name__
+        okw = {} if oarg is DEFAULT else {"otype": oarg}
+        for name in (None, "Z"):
+            nkw = {} if name is None and oarg is DEFAULT else {"name": name}
+            cf = ml.CDXMLFile(p)
+            xf, pf = fragment_oracle(cf)
+            want = None if pf is None else [T(pf(fg, name=name)) for fg in xf]
+            forms = [("Path", lambda: ml.load_all(p, **okw, **nkw)), ("str", lambda: ml.load_all(str(p), **okw, **nkw))]
+            if not light and (name is None or T is ml.Structure):
+                forms += [("multi-dot-name", lambda: ml.load_all(pmd, **okw, **nkw)),
+                          ("relative-str", lambda: ml.load_all(relative(pmd), **okw, **nkw)),
+                          ("positional-fmt", lambda: ml.load_all(podd, "cdxml", **okw, **nkw)),
+                          ("keyword-fmt", lambda: ml.load_all(podd, fmt="cdxml", **okw, **nkw)),
+                          ("parser-name-mixed-case", lambda: ml.load_all(p, parser="Molli", **okw, **nkw))]
+            for form, call in forms:
+                case = ("cdxml-load_all",) + tag + (oname, name, form)
+                if not ctx.want(case):
+                    continue
+                ctx.count("cell.load_all")
+                if form in FORM_COUNTER:
+                    ctx.count(FORM_COUNTER[form])
+                ctx.case(case, dkey=case, nontrivial=True, sample={"call": "load_all", "fmt": "cdxml", "file": fname, "otype": oname,
+                                                                    "name": name, "form": form})
+                key = form_key(f"load_all:cdxml:{oname}", form)
+                for rnd in ("", "again-after-editing-first-result:") if form in ("Path", "str") else ("",):
+                    got, gerr = attempt(call)
+                    if rnd:
+                        ctx.count("cell.load_all-again-after-edit")
+                    if gerr is not None:
+                        ctx.violation(f"{rnd}{key}:raises:{type(gerr).__name__}", case=case, err=repr(gerr)[:200])
+                        break
+                    if not isinstance(got, list):
+                        ctx.violation(f"{rnd}{key}:list-promised-but-{type(got).__name__}-returned", case=case)
+                        break
+                    bad = [type(m).__name__ for m in got if type(m) is not T]
+                    if bad:
+                        ctx.violation(f"{rnd}{key}:element-type-differs", case=case, got=bad[:3], want=T.__name__)
+                        break
+                    if name is not None:
+                        ctx.count("name-override.checked")
+                        if any(m.name != name for m in got):
+                            ctx.violation(f"{rnd}{key}:name-override-ignored", case=case, names=[m.name for m in got][:3])
+                    if want is not None:
+                        ctx.count("cdxml.load_all-elements-compared", len(want))
+                        same(ctx, case, f"{rnd}{key}", got, want)
+                    if form == "Path" and not rnd:
+                        # independent of the fragment list: a labelled molecule of the drawing is one of the molecules of the drawing
+                        snaps = [snap(m) for m in got]
+                        for s_ in snaps:
+                            s_.pop("name", None)
+                        cfl = ml.CDXMLFile(p)
+                        for k in list(cfl.keys()):
+                            lab, lerr = attempt(lambda: T(cfl[k]))
+                            if lerr is not None:
+                                continue
+                            sl = snap(lab)
+                            sl.pop("name", None)
+                            ctx.count("cdxml.labelled-fragment-found-in-load_all")
+                            if not any(not diff(sl, s_, rtol=1e-9, atol=1e-9) for s_ in snaps):
+                                ctx.violation(f"{key}:labelled-molecule-of-the-drawing-missing-from-the-list", case=case, label=k,
+                                              formula=getattr(lab, "formula", None))
+                    edit_result(got)
 
 
 def run_errors(ctx, again=None):
@@ -558,9 +835,108 @@ def run_errors(ctx, again=None):
                 if not buf.closed:
                     buf.close()
     # cdxml from a string: documented as file-only
-    case = ("error", "loads", "cdxml")
-    ctx.count("cell.error")
-    ctx.case(case, dkey=case, nontrivial=False)
-    _, err = attempt(lambda: ml.loads("<CDXML/>", "cdxml"))
-    if err is None or not isinstance(err, (ValueError, NotImplementedError)):
-        ctx.violation("loads:cdxml:neither-ValueError-nor-NotImplementedError", case=case, err=repr(err)[:100])
+    drawing = (ml.files.ROOT / "charges_mult.cdxml").read_text()
+    for cname, fn in (("loads", lambda: ml.loads("<CDXML/>", "cdxml")), ("loads", lambda: ml.loads(drawing, "cdxml", otype=ml.Structure)),
+                      ("loads_all", lambda: ml.loads_all("<CDXML/>", "cdxml")), ("loads_all", lambda: ml.loads_all(drawing, fmt="cdxml")),
+                      ("loads_all", lambda: ml.loads_all(drawing, "cdxml", otype=ml.Structure, name="Z"))):
+        case = ("error", cname, "cdxml")
+        ctx.count("cell.error")
+        ctx.case(case, dkey=case, nontrivial=False)
+        _, err = attempt(fn)
+        if err is None or not isinstance(err, (ValueError, NotImplementedError)):
+            ctx.violation(f"{cname}:cdxml:neither-ValueError-nor-NotImplementedError", case=case, err=repr(err)[:100])
+    # another parser does not make an unknown format known: with parser / writer 'openbabel' a format that openbabel does not list
+    # is refused with ValueError as well (decided before openbabel is needed, so also where it is not installed)
+    qq = ctx.tmp / "y.qqq"
+    qq.write_text(text)
+    for pname in ("openbabel", "obabel", "OpenBabel"):
+        for bad in ("qqq", "q.q"):
+            cells = [("load", lambda: ml.load(good, fmt=bad, parser=pname)), ("load", lambda: ml.load(good, bad, parser=pname)),
+                     ("loads", lambda: ml.loads(text, bad, parser=pname)),
+                     ("load_all", lambda: ml.load_all(good, fmt=bad, parser=pname)),
+                     ("loads_all", lambda: ml.loads_all(text, bad, parser=pname)),
+                     ("dumps", lambda: ml.dumps(mol, bad, writer=pname)),
+                     ("dump-stream", lambda: ml.dump(mol, io.StringIO(), bad, writer=pname)),
+                     ("dump-path", lambda: ml.dump(mol, ctx.tmp / "ob-out.mol2", bad, writer=pname))]
+            if bad == "qqq":
+                cells += [("load", lambda: ml.load(qq, parser=pname)), ("load_all", lambda: ml.load_all(str(qq), parser=pname)),
+                          ("dump-path", lambda: ml.dump(mol, ctx.tmp / "ob-out.qqq", writer=pname))]
+            for cname, fn in cells:
+                case = ("error", cname, "openbabel-parser", pname, bad)
+                ctx.count("cell.error")
+                ctx.count("error.openbabel-parser-unlisted-format")
+                ctx.case(case, dkey=case, nontrivial=False)
+                got, err = attempt(fn)
+                if err is None:
+                    ctx.violation(f"{cname}:openbabel-parser:unlisted-format-accepted", case=case, fmt=bad, returned=type(got).__name__)
+                elif not isinstance(err, ValueError):
+                    ctx.violation(f"{cname}:openbabel-parser:unlisted-format-raises-{type(err).__name__}-instead-of-ValueError", case=case,
+                                  fmt=bad, err=repr(err)[:200])
+
+
+WELL_KNOWN_FORMATS = ("mol", "sdf", "sd", "mdl", "pdb", "ent", "pqr", "cif", "mmcif", "smi", "smiles", "can", "inchi", "cml", "xml", "json",
+                      "cdx", "gjf", "com", "log", "out", "inp", "txt", "dat", "gro", "cube", "fchk", "molden", "mopin", "gzmat", "ml2", "sy2",
+                      "exyz", "txyz", "unixyz", "xyz2", "mol3", "mol2s", "xy", "POSCAR", "yaml", "mlib")
+
+
+def run_format_table(ctx):
+    """every format name without a class-level codec -- in particular every name the library lists as known to openbabel only --
+    is refused with ValueError by all entry points of the native parser / writer, whichever way the format is given"""
+    import io
+    import molli as ml
+
+    names = set(WELL_KNOWN_FORMATS)
+    for mod in (getattr(ml, "reader", None), getattr(ml, "writer", None)):
+        names |= {f for f in (getattr(mod, "supported_fmts_obabel", None) or ()) if isinstance(f, str)}
+    readable = {f for f in names if hasattr(ml.Molecule, f"load_{f}")} | {"cdxml"}
+    writable = {f for f in names if hasattr(ml.Molecule, f"dumps_{f}")}
+    mol = ml.Molecule.load_mol2(ml.files.ROOT / "dummy.mol2") if (ml.files.ROOT / "dummy.mol2").exists() else \
+        ml.Molecule.load_mol2(ml.files.ROOT / "dendrobine.mol2")
+    text = mol.dumps_mol2()
+    d = ctx.tmp / "fmt-table"
+    d.mkdir(exist_ok=True)
+    for fmt in sorted(names):
+        p = d / f"in.{fmt}"
+        p.write_text(text)
+        cells = []
+        if fmt not in readable:
+            cells += [("load", "suffix", lambda: ml.load(p)), ("load", "keyword-fmt", lambda: ml.load(p, fmt=fmt)),
+                      ("load", "positional-fmt", lambda: ml.load(str(p), fmt, otype=ml.Structure)),
+                      ("load", "ensemble", lambda: ml.load(p, otype="ensemble", name="Z")),
+                      ("loads", "positional-fmt", lambda: ml.loads(text, fmt)), ("loads", "keyword-fmt", lambda: ml.loads(text, fmt=fmt, otype="ensemble")),
+                      ("load_all", "suffix", lambda: ml.load_all(p)), ("load_all", "positional-fmt", lambda: ml.load_all(p, fmt, otype=ml.Structure)),
+                      ("loads_all", "positional-fmt", lambda: ml.loads_all(text, fmt)),
+                      ("loads_all", "keyword-fmt", lambda: ml.loads_all(text, fmt=fmt, name="Z"))]
+        if fmt not in writable:
+            cells += [("dumps", "positional-fmt", lambda: ml.dumps(mol, fmt)), ("dumps", "keyword-fmt", lambda: ml.dumps(mol, fmt=fmt)),
+                      ("dump-stream", "positional-fmt", lambda: ml.dump(mol, io.StringIO(), fmt)),
+                      ("dump-path", "suffix", lambda: ml.dump(mol, d / f"out.{fmt}")),
+                      ("dump-path", "suffix-mode-w", lambda: ml.dump(mol, str(d / f"out2.{fmt}"), mode="w")),
+                      ("dump-path", "keyword-fmt", lambda: ml.dump(mol, d / "out.txt", fmt=fmt))]
+        for cname, form, fn in cells:
+            case = ("format-table", cname, form, fmt)
+            if not ctx.want(case):
+                continue
+            ctx.count("cell.error")
+            ctx.count("error.format-without-class-codec")
+            ctx.case(case, dkey=case, nontrivial=False, sample={"call": cname, "fmt": fmt, "form": form})
+            got, err = attempt(fn)
+            if err is None:
+                ctx.violation(f"{cname}:format-without-class-codec-accepted", case=case, fmt=fmt, form=form, returned=type(got).__name__)
+            elif not isinstance(err, ValueError):
+                ctx.violation(f"{cname}:format-without-class-codec-raises-{type(err).__name__}-instead-of-ValueError", case=case, fmt=fmt,
+                              form=form, err=repr(err)[:200])
+    # the bundled files in such formats
+    for f in sorted(ml.files.ROOT.glob("*.mol")) + sorted(ml.files.ROOT.glob("*.sdf")) + sorted(ml.files.ROOT.glob("*.pdb")):
+        for cname, fn in (("load", lambda: ml.load(f)), ("load_all", lambda: ml.load_all(f)),
+                          ("loads", lambda: ml.loads(f.read_text(), f.suffix[1:])), ("loads_all", lambda: ml.loads_all(f.read_text(), f.suffix[1:]))):
+            case = ("format-table", cname, "bundled-file", f.name)
+            ctx.count("cell.error")
+            ctx.count("error.format-without-class-codec")
+            ctx.case(case, dkey=case, nontrivial=False)
+            got, err = attempt(fn)
+            if err is None:
+                ctx.violation(f"{cname}:format-without-class-codec-accepted", case=case, file=f.name, returned=type(got).__name__)
+            elif not isinstance(err, ValueError):
+                ctx.violation(f"{cname}:format-without-class-codec-raises-{type(err).__name__}-instead-of-ValueError", case=case,
+                              file=f.name, err=repr(err)[:200])
